@@ -154,6 +154,43 @@ theorem dqn_cadence (cfg : Cfg α) (h : cfg.algo = .dqn) (c : Ctr) (ops : List C
     gradFlags (ctrRun cfg c ops).2 = List.replicate (totalGrad ops) false :=
   Lemmas.Cadence.ctrRun_dqn cfg h c ops
 
+/-- **DQN, how many target updates a history contains**: over ANY history of vectorised environment steps and `train()`
+calls (any number of `learn()` calls, any `train_freq`, any split), starting with call counter `n_calls₀`, the number of
+target-network updates is the number of multiples of `max (I / n_envs) 1` in `(n_calls₀, n_calls₀ + K]`, `K` the number of
+vectorised steps: `⌊(n_calls₀ + K) / p⌋ − ⌊n_calls₀ / p⌋`. In particular a run of `K` steps from a fresh model makes
+`⌊K / p⌋` updates, and no history can make the target drift more or less often than that. -/
+theorem dqn_update_count (cfg : Cfg α) (h : cfg.algo = .dqn) (c : Ctr) (ops : List CtrOp) :
+    (envFlags (ctrRun cfg c ops).2).count true =
+      (c.nCalls + totalEnv ops) / dqnEvery cfg - c.nCalls / dqnEvery cfg ∧
+    (gradFlags (ctrRun cfg c ops).2).count true = 0 := by
+  obtain ⟨_, h2, h3⟩ := dqn_cadence cfg h c ops
+  rw [h2, h3]
+  refine ⟨Lemmas.Cadence.count_multiples _ _ _, ?_⟩
+  induction totalGrad ops with
+  | zero => rfl
+  | succ n ih => simpa [List.replicate_succ] using ih
+
+/-- **TD3 / DDPG, how many delayed (actor + target) updates a history contains**: over any history with `G` gradient steps in
+total, starting with `_n_updates = u₀`: `⌊(u₀ + G) / policy_delay⌋ − ⌊u₀ / policy_delay⌋`. -/
+theorem td3_update_count (cfg : Cfg α) (h : cfg.algo = .td3) (c : Ctr) (ops : List CtrOp) :
+    (gradFlags (ctrRun cfg c ops).2).count true =
+      (c.nUpdates + totalGrad ops) / cfg.delay - c.nUpdates / cfg.delay := by
+  rw [(td3_updates_iff_delayed cfg h c ops).2.1]
+  exact Lemmas.Cadence.count_multiples _ _ _
+
+/-- **SAC, how many target updates a history contains**: the gradient steps are numbered `u₀, u₀ + 1, …` over ALL `train()`
+calls and the multiples of `target_update_interval` among the first `G` of them fire:
+`⌈(u₀ + G) / I⌉ − ⌈u₀ / I⌉` (written with floor divisions). -/
+theorem sac_update_count (cfg : Cfg α) (h : cfg.algo = .sac) (hI : 0 < cfg.interval) (c : Ctr) (ops : List CtrOp) :
+    (gradFlags (ctrRun cfg c ops).2).count true =
+      (c.nUpdates + cfg.interval - 1 + totalGrad ops) / cfg.interval - (c.nUpdates + cfg.interval - 1) / cfg.interval := by
+  rw [(sac_cadence cfg h c ops).2.1, ← Lemmas.Cadence.count_multiples]
+  congr 1
+  apply List.map_congr_left
+  intro j _
+  have : c.nUpdates + cfg.interval - 1 + j + 1 = c.nUpdates + j + cfg.interval := by omega
+  rw [this, Nat.add_mod_right]
+
 /-- **DQN period in environment steps counted across sub-environments**: `p = n_envs * max (I / n_envs) 1`
 is `target_update_interval` rounded down to a whole number of vectorised steps (`p ≤ I < p + n_envs`) when
 `n_envs ≤ I`, and one vectorised step (`p = n_envs`) otherwise; and "the call counter is a multiple of
